@@ -56,14 +56,27 @@ type op struct {
 
 // ModelString is the op as the model reads it.
 func (o op) ModelString() string {
-	if o.K == 'C' {
+	switch o.K {
+	case 'C':
 		if o.Model == "" {
 			return "Ke"
 		}
 		return o.Model
+	case 'G':
+		if o.Model != "" {
+			return o.Model // "Q<k>:<order>": the sweep met an entry it cannot remove
+		}
+	case 'X':
+		return fmt.Sprintf("S%d.0.1", blockerID(o.N)) // for the model: a stray with a valid digest name
 	}
 	return o.String()
 }
+
+// blockerID: the stray id of the j-th "blocker", a non-empty DIRECTORY with a valid digest name
+// under blobs/sha256 (os.Remove fails on it: an I/O error in the middle of the sweep)
+func blockerID(j int) int { return 600 + 6*j }
+
+func isBlocker(id int) bool { return id >= 600 }
 
 func (o op) String() string {
 	switch o.K {
@@ -83,6 +96,8 @@ func (o op) String() string {
 		return "I"
 	case 'B':
 		return fmt.Sprintf("B%d", o.N)
+	case 'X':
+		return fmt.Sprintf("X%d", o.N)
 	case 'V':
 		return fmt.Sprintf("V%d", o.N)
 	case 'C':
@@ -136,7 +151,7 @@ func parseOps(s string) []op {
 			out = append(out, op{K: 'F'})
 		case 'I':
 			out = append(out, op{K: 'I'})
-		case 'V', 'C', 'B':
+		case 'V', 'C', 'B', 'X':
 			out = append(out, op{K: f[0], N: ints()[0]})
 		case 'A', 'S':
 			out = append(out, op{K: f[0], N: ints()[0]})
@@ -495,8 +510,11 @@ func (w *world) gcCancelled(n int, everStray map[int]bool) (token string, err er
 	for _, e := range order {
 		before[e] = true
 	}
-	cc := &countCtx{Context: context.Background(), left: int64(n)}
-	err, hung = w.guarded(func(context.Context) error { return w.store.GC(cc) })
+	var gctx context.Context = context.Background()
+	if n >= 0 {
+		gctx = &countCtx{Context: context.Background(), left: int64(n)}
+	}
+	err, hung = w.guarded(func(context.Context) error { return w.store.GC(gctx) })
 	if hung {
 		return "", nil, true
 	}
@@ -504,6 +522,14 @@ func (w *world) gcCancelled(n int, everStray map[int]bool) (token string, err er
 		return "G", nil, false
 	}
 	if !errors.Is(err, context.Canceled) {
+		// an entry the sweep cannot remove (a non-empty directory with a digest name): the sweep
+		// stopped there, the entries before it were handled
+		for i, e := range order {
+			var id int
+			if _, serr := fmt.Sscanf(e, "s%d", &id); serr == nil && isBlocker(id) {
+				return fmt.Sprintf("Q%d:%s", i, strings.Join(order, ",")), err, false
+			}
+		}
 		return "G", err, false
 	}
 	if strings.Contains(err.Error(), "unable to reload index") {
@@ -895,6 +921,18 @@ func runCaseAttempt(g *dag.Graph, ops []op, seed uint64, attempt int) {
 				fail("push-left-garbage", fmt.Sprintf("op %d (%s): the failed Push left its blob in the storage", oi, o))
 				failed = true
 			}
+		case 'X':
+			bid := blockerID(o.N)
+			p := filepath.Join(root, "blobs", strayPath(bid))
+			if werr := os.MkdirAll(p, 0o755); werr != nil {
+				panic(werr)
+			}
+			if werr := os.WriteFile(filepath.Join(p, "inside"), []byte("x"), 0o644); werr != nil {
+				panic(werr)
+			}
+			expStrays[bid] = true
+			everStray[bid] = true
+			kind = "stray-directory"
 		case 'V':
 			store.AutoSaveIndex = o.N == 1
 			tr.autosave = o.N == 1
@@ -944,6 +982,19 @@ func runCaseAttempt(g *dag.Graph, ops []op, seed uint64, attempt int) {
 			case token == "Ke":
 				expRes = "canceled" // nothing may have changed
 				run.Count("gc-cancel:before-rebuild")
+			case strings.HasPrefix(token, "Q"):
+				expRes = "other"
+				handled := map[string]bool{}
+				var k int
+				var rest string
+				fmt.Sscanf(token, "Q%d:%s", &k, &rest)
+				for i, e := range strings.Split(rest, ",") {
+					if i < k {
+						handled[e] = true
+					}
+				}
+				expectGC(handled)
+				run.Count("gc-cancel:blocked")
 			default:
 				expRes = "canceled"
 				handled := map[string]bool{}
@@ -1014,9 +1065,27 @@ func runCaseAttempt(g *dag.Graph, ops []op, seed uint64, attempt int) {
 				}
 			}
 		case 'G':
-			err, hung = w.guarded(func(c context.Context) error { return store.GC(c) })
+			var token string
+			token, err, hung = w.gcCancelled(-1, everStray)
 			kind = "gc"
-			expectGC(nil)
+			if strings.HasPrefix(token, "Q") {
+				// I/O error in the sweep: judged like a sweep that stopped there
+				ops[oi].Model, o.Model = token, token
+				expRes = "other"
+				handled := map[string]bool{}
+				var k int
+				var rest string
+				fmt.Sscanf(token, "Q%d:%s", &k, &rest)
+				for i, e := range strings.Split(rest, ",") {
+					if i < k {
+						handled[e] = true
+					}
+				}
+				expectGC(handled)
+				kind = "gc-blocked"
+			} else {
+				expectGC(nil)
+			}
 		}
 		if o.K == 'D' && tr.autosave {
 			// delete() saves when it removed or added a reference
@@ -1361,7 +1430,17 @@ func execOnly(g *dag.Graph, ops []op) (string, bool) {
 		case 'D':
 			err, hung = w.guarded(func(c context.Context) error { return store.Delete(c, g.Nodes[o.N].Desc) })
 		case 'G':
-			err, hung = w.guarded(func(c context.Context) error { return store.GC(c) })
+			var token string
+			token, err, hung = w.gcCancelled(-1, strays)
+			if strings.HasPrefix(token, "Q") {
+				o.Model = token
+			}
+		case 'X':
+			bid := blockerID(o.N)
+			p := filepath.Join(root, "blobs", strayPath(bid))
+			os.MkdirAll(p, 0o755)
+			os.WriteFile(filepath.Join(p, "inside"), []byte("x"), 0o644)
+			strays[bid] = true
 		}
 		if hung {
 			return "", true
@@ -1505,6 +1584,10 @@ func genCase(r *common.Rand) (*dag.Graph, []op) {
 		}
 		if r.Chance(1, 25) {
 			ops = append(ops, op{K: 'B', N: r.Intn(4)})
+		}
+		if r.Chance(1, 40) {
+			// a non-empty directory with a digest name: every later GC fails there
+			ops = append(ops, op{K: 'X', N: r.Intn(3)})
 		}
 		if r.Chance(1, 14) {
 			// AutoSaveIndex off / on / an explicit SaveIndex
@@ -1870,7 +1953,7 @@ func coverageFloors(n int) {
 	}
 	need := map[string]int{"op:delete": n / 4, "op:gc": n / 4, "op:tag": n / 2, "op:push": 2 * n, "op:stray": n / 20, "repetitions": n / 2,
 		"gc-cancel:in-sweep": n / 50, "gc-cancel:before-rebuild": n / 100, "gc-cancel:completed": n / 100,
-		"op:autosave": n / 20, "op:saveindex": n / 50, "op:push-undecodable": n / 20}
+		"op:autosave": n / 20, "op:saveindex": n / 50, "op:push-undecodable": n / 20, "op:gc-blocked": n / 50}
 	if keepLiveDigests {
 		need["op:reopen"] = n / 20
 	}
